@@ -1,10 +1,10 @@
 package codec
 
 import (
-	"strings"
 	"fmt"
 	"go/token"
 	"go/types"
+	"strings"
 
 	"golang.org/x/tools/go/ssa"
 
@@ -83,6 +83,32 @@ func (e *Ext) seqProducer(call *ssa.Call, pos token.Pos) []Atom {
 	if cc.IsInvoke() {
 		name = cc.Method.Name()
 	}
+	// a method invoked on an interface parameter of an inlined helper: the
+	// caller passed &recv.Field (a MakeInterface of a field address), so the bytes
+	// are that field's own encoding
+	if cc.IsInvoke() && e.parent != nil {
+		if q, isP := cc.Value.(*ssa.Parameter); isP {
+			if arg, bound := e.bind[q]; bound {
+				if mi, isMI := arg.(*ssa.MakeInterface); isMI {
+					a := Atom{Kind: "nested", Type: types.TypeString(deref(mi.X.Type()), shortQ) + "." + cc.Method.Name(), Pos: pos}
+					if e.Fn.Prog != nil {
+						a.Callee = e.Fn.Prog.LookupMethod(mi.X.Type(), cc.Method.Pkg(), cc.Method.Name())
+						if a.Callee != nil && a.Callee.Signature.Recv() != nil && a.Callee.Synthetic == "" {
+							a.Type = types.TypeString(deref(a.Callee.Signature.Recv().Type()), shortQ) + "." + cc.Method.Name()
+						}
+					}
+					if p, ok := e.parent.FieldPath(mi.X); ok {
+						a.Field = p
+						return []Atom{a}
+					}
+					if p, ok := e.parent.basePath(mi.X); ok && p != "" {
+						a.Field = p
+						return []Atom{a}
+					}
+				}
+			}
+		}
+	}
 	short := name
 	if f := cc.StaticCallee(); f != nil {
 		short = f.Name()
@@ -138,7 +164,11 @@ func (e *Ext) seqCall(x *ssa.Call) []Atom {
 		if b.Name() == "append" {
 			out := append([]Atom(nil), e.Seq(cc.Args[0])...)
 			if len(cc.Args) > 1 {
-				out = append(out, e.Seq(cc.Args[1])...)
+				if sc, ok := e.seqScratchAt(cc.Args[1], x); ok {
+					out = append(out, sc...)
+				} else {
+					out = append(out, e.Seq(cc.Args[1])...)
+				}
 			}
 			return out
 		}
@@ -929,6 +959,9 @@ func plainParams(f *ssa.Function) bool {
 			if !isByteSlice(t) {
 				return false
 			}
+		case *types.Interface:
+			// an interface parameter whose methods produce the bytes
+			// (appendMarshalled(buf, &c.Field)): resolved through the caller's argument
 		default:
 			return false
 		}
@@ -1273,4 +1306,143 @@ func loadedGlobalName(v ssa.Value) string {
 		}
 	}
 	return ""
+}
+
+// seqScratchAt: view is a constant window of a local scratch buffer (an array
+// variable or a make of constant size) that is refilled by PutUintN and
+// appended several times (`var scratch [4]byte; b2 := scratch[:2];
+// PutUint16(b2, x); out = append(out, b2...); PutUint16(b2, y); …`). The bytes
+// the append at `at` copies are those of the last PutUintN into exactly this
+// window that dominates `at`, provided every other write of the buffer either
+// dominates that put or is dominated by `at`. ok=false: not this idiom (the
+// caller falls back to the one-layout-per-buffer reading).
+func (e *Ext) seqScratchAt(view ssa.Value, at *ssa.Call) ([]Atom, bool) {
+	window := func(v ssa.Value) (root ssa.Value, lo, n int64, ok bool) {
+		sl, isSl := v.(*ssa.Slice)
+		if !isSl {
+			return nil, 0, 0, false
+		}
+		var size int64
+		switch r := sl.X.(type) {
+		case *ssa.Alloc:
+			arr, isArr := deref(r.Type()).Underlying().(*types.Array)
+			if !isArr {
+				return nil, 0, 0, false
+			}
+			size = arr.Len()
+		case *ssa.MakeSlice:
+			k, isK := constI(r.Len)
+			if !isK {
+				return nil, 0, 0, false
+			}
+			size = k
+		default:
+			return nil, 0, 0, false
+		}
+		lo, hi := int64(0), size
+		if sl.Low != nil {
+			k, isK := constI(sl.Low)
+			if !isK {
+				return nil, 0, 0, false
+			}
+			lo = k
+		}
+		if sl.High != nil {
+			k, isK := constI(sl.High)
+			if !isK {
+				return nil, 0, 0, false
+			}
+			hi = k
+		}
+		return sl.X, lo, hi - lo, hi >= lo
+	}
+	root, vlo, vn, ok := window(view)
+	if !ok || root.Referrers() == nil {
+		return nil, false
+	}
+	type put struct {
+		call  *ssa.Call
+		lo, n int64
+		w     int
+		order string
+	}
+	var puts []put
+	for _, r := range *root.Referrers() {
+		switch y := r.(type) {
+		case *ssa.Slice:
+			_, lo, n, okw := window(y)
+			if !okw || y.Referrers() == nil {
+				return nil, false
+			}
+			for _, u := range *y.Referrers() {
+				switch z := u.(type) {
+				case *ssa.DebugRef:
+				case *ssa.Call:
+					cc := z.Common()
+					if kind, w, order := binCall(z); kind == "put" && cc.Args[1] == ssa.Value(y) {
+						if int64(w) > n {
+							return nil, false
+						}
+						puts = append(puts, put{z, lo, int64(w), w, order})
+						continue
+					}
+					if b, isB := cc.Value.(*ssa.Builtin); isB && (b.Name() == "len" || b.Name() == "cap") {
+						continue
+					}
+					if b, isB := cc.Value.(*ssa.Builtin); isB && b.Name() == "append" && len(cc.Args) == 2 && cc.Args[1] == ssa.Value(y) && cc.Args[0] != ssa.Value(y) {
+						continue // read: the window is copied out
+					}
+					return nil, false
+				default:
+					return nil, false
+				}
+			}
+		case *ssa.DebugRef:
+		default:
+			return nil, false // element stores, copies, escapes: not this idiom
+		}
+	}
+	if len(puts) < 2 {
+		return nil, false // a buffer written once is read by seqFixedBuf
+	}
+	idx := func(in ssa.Instruction) int {
+		for i, x := range in.Block().Instrs {
+			if x == in {
+				return i
+			}
+		}
+		return -1
+	}
+	dom := func(a, b ssa.Instruction) bool {
+		if a.Block() == b.Block() {
+			return idx(a) < idx(b)
+		}
+		return a.Block().Dominates(b.Block())
+	}
+	var last *put
+	for i := range puts {
+		pi := &puts[i]
+		if !dom(pi.call, at) {
+			continue
+		}
+		if last == nil || dom(last.call, pi.call) {
+			last = pi
+		}
+	}
+	if last == nil || last.lo != vlo || last.n != vn {
+		return nil, false
+	}
+	for i := range puts {
+		pi := &puts[i]
+		if pi == last {
+			continue
+		}
+		if pi.lo+pi.n <= last.lo || last.lo+last.n <= pi.lo {
+			continue // disjoint windows
+		}
+		if !dom(pi.call, last.call) && !dom(at, pi.call) {
+			return nil, false
+		}
+	}
+	return e.fixedAtoms(last.call.Common().Args[2], last.w, last.order, last.call.Pos()), true
 }
